@@ -45,6 +45,11 @@ CHECKS = {
    technique="TLA+ specification of literal denotation and of the implementation pipeline (scanner, ParseSInterP, Go string syntax, Sprintf) in FoLiteral.tla; TLC checks pipeline = denotation on every enumerated literal; literals are transpiled by the real fc, compiled and run, and the resulting bytes validated by TLC (FoLiteralTrace.tla)",
    text="A literal is an abstract sequence of segments (plain character, escape, brace escape, hole) in one of the 4 forms; its source text and its documented value are both derived in TLA+. TLC checks a stage-by-stage model of the implementation against the denotation for all legal literals up to 2 (quick) / 3 (thorough) segments over a critical alphabet, and validates the bytes that the emitted Go program really computes for those literals, for every printable ASCII and several multi-byte characters in each form, for int/string/bool holes in all placements, and for seeded random bodies up to 40 segments.",
    note="Trusted: the renderer and the byte-to-character-name decoder; hole values are an int, a string containing % and a bool; bodies that are not literals of the form are not generated; Go compile errors are attributed to the literal function containing the reported line."),
+ "C18": dict(
+   category="model_checking", design_ref="4.18", engine="FoSampleMd",
+   technique="TLA+ machine of build_sample_md (FoSampleMd.tla: ReadList / ConvOne / FailOne / WriteReadme) model-checked with TLC over an enumerated scenario universe; each scenario staged and run through the real tool; the observed event trace (announced entries, exit, README structure) validated action by action by TLC (FoSampleMdTrace.tla)",
+   text="The tool is an explicit machine whose invariants (a written README has exactly one section per entry in list order with verbatim content; a failed run leaves README.md untouched; it fails iff a listed file is unreadable) are model-checked on every scenario TLC enumerates (list shapes with blank lines, titles with several/leading/no spaces, file names whose base ends in f/o/., no .fo suffix, a missing file at each position, adversarial file contents, a longer pre-existing README). Every scenario is run through the rebuilt tool and its observed events are validated against the machine's actions. Exhaustive under the bound (<= 2 entries quick, <= 3 thorough).",
+   note="Trusted: the structural reader of README.md (recognises the staged contents verbatim, tolerant to spacing); `process:` lines as the announcement events; scenario universe bound."),
 }
 
 def cmd(pid, tier):
